@@ -223,8 +223,7 @@ def run(chk):
             enc, fl = v.items[0], v.items[1].v
             vt = s.get("value_test", ())
             nonident = [x for x in vt if not x[1]]
-            if nonident:
-                r3.fail("_python_memcache_serializer:value-dependent-dispatch", "the encoding branch depends on `%s`, an equality/ordering test on the value rather than on its exact type: values that merely compare equal (0.0, 1.0, Decimal(1), a subclass instance) are serialized as something else and come back with another type" % nonident[0][0], fn=ser, node=ser.node)
+            vnote = (" (this path is selected by `%s`, an equality/ordering test on the value rather than on its exact type: values that merely compare equal - 0.0, 1.0, Decimal(1), a subclass instance - take it too)" % nonident[0][0]) if nonident else ""
             r1.expect(0 <= fl < 2**16, "flags %d for %s within 16 bits" % (fl, tag), "serde:flags-out-of-range:%s" % tag, "flags %d produced for %s do not fit 16 bits" % (fl, tag), fn=ser)
             produced[(tag, fl)] = enc
             ot = out_type(enc)
@@ -249,7 +248,7 @@ def run(chk):
                 else:
                     # attribute to R3 when the encoder choice itself is wrong for the type, to R2 when the decoder disagrees
                     enc_ok_for_type = inverse_ok(tag, enc, _ideal_dec(enc))[0]
-                    (r2 if enc_ok_for_type else r3).fail(construct, "exact type %s is written as %s with flags %d and read back%s through %s: %s" % (tag, _e(enc), fl, " (COMPRESSED bit still set, as CompressedSerde passes it)" if extra else "", _e(dec), why), fn=ser if not enc_ok_for_type else des)
+                    (r2 if enc_ok_for_type else r3).fail(construct, "exact type %s is written as %s with flags %d and read back%s through %s: %s" % (tag, _e(enc), fl, " (COMPRESSED bit still set, as CompressedSerde passes it)" if extra else "", _e(dec), why + vnote), fn=ser if not enc_ok_for_type else des)
     r2.floor("writer rows (type class x path)", n_rows, 13)
 
     # ------------------------------------------------------------------ R5 compression decision
